@@ -17,7 +17,7 @@ def overlay(tier):
 
 
 def harnesses(tier, seed):
-    t = 300 if tier == "quick" else 900
+    t = 450 if tier == "quick" else 900
     b = "tape of 4 cells, concrete block shapes (<= 2 instructions, one-instruction bodies, nesting depth 2), budget <= 3; Calc excluded"
     def h(name, fn, clause, props, allow=()):
         return {"name": MOD + name, "function": fn, "clause": clause, "properties": props, "bounded_by": b,
